@@ -1,6 +1,6 @@
 (* C08 - entity pose follows the position packets addressed to it.  Statements only (proofs: PoseProofs.v).
    These hold for the code AFTER the repair recorded in known_findings.json (fixed: C08-a). *)
-From RU Require Import Base Types Defs BitReader World WireSpec LwwProofs PoseProofs.
+From RU Require Import Base Types Defs BitReader World WireSpec LwwProofs PoseProofs Layout LayoutProofs.
 Open Scope N_scope.
 
 Theorem C08_position_sets_pose : forall St w id e veh pos poserr yaw pitch roll flag,
@@ -44,3 +44,10 @@ Print Assumptions C08_position_sets_pose.
 Print Assumptions C08_own_player_no_second.
 Print Assumptions C08_own_player_with_second.
 Print Assumptions C08_own_player_unknown.
+
+(* the byte layout of every packet class is a TABLE (Layout.class_layout) that the translator tools/gen_packets.py regenerates from the
+   __init__ of the packet classes on every run (generated instance theorems: translated layout = class_layout); the model's step function
+   is the table-driven one: the header fields are read by the generic parser from that table and handed to the class's handler *)
+Theorem C08_step_is_table_driven : forall St w c pl, step_class St w c pl = step_layout St w c pl.
+Proof. exact step_class_is_layout. Qed.
+Print Assumptions C08_step_is_table_driven.
